@@ -151,19 +151,27 @@ impl GenerationPass for AvailableValuePass {
                 changed |= node.set_memory_values_in(in_memory_n);
 
                 // out[n] = gen[n] U (in[n] - kill[n]) U (callee_saved if n is entry)
-                let mut out_reg_n = node.reg_values_in();
-                out_reg_n -= node.kill_reg().iter();
+                let mut overwritten = node.kill_reg();
                 if node.calls_to().is_some() {
-                    out_reg_n -= Register::return_addr_set().iter();
+                    overwritten |= Register::return_addr_set();
                 }
                 if node.is_ecall() {
                     // The environment overwrites its result registers (a0 and
                     // a1 when the call is not known)
-                    let results = node
+                    overwritten |= node
                         .known_ecall_signature()
                         .map_or(Register::program_args_set(), |(_, rets)| rets);
-                    out_reg_n -= results.iter();
                 }
+                // A value expressed relative to an overwritten register no
+                // longer says anything
+                let is_stale = |value: &AvailableValue| {
+                    matches!(value, AvailableValue::RegisterWithScalar(reg, _) if overwritten.contains(reg))
+                };
+                let mut out_reg_n: AvailableValueMap<Register> = node
+                    .reg_values_in()
+                    .into_iter()
+                    .filter(|(reg, value)| !overwritten.contains(reg) && !is_stale(value))
+                    .collect();
                 if let Some((reg, reg_value)) = node.gen_reg_value() {
                     out_reg_n.insert(reg, reg_value);
                 }
@@ -187,7 +195,11 @@ impl GenerationPass for AvailableValuePass {
                 let mut out_memory_n = if node.is_any_entry() {
                     AvailableValueMap::new()
                 } else {
-                    let mut map = node.memory_values_in();
+                    let mut map: AvailableValueMap<MemoryLocation> = node
+                        .memory_values_in()
+                        .into_iter()
+                        .filter(|(_, value)| !is_stale(value))
+                        .collect();
                     if let Some((MemoryLocation::StackOffset(offset), value)) =
                         node.gen_memory_value()
                     {
